@@ -338,7 +338,7 @@ impl C11 {
 
 impl Monitor for C11 {
     fn total_cases(&self) -> u64 {
-        self.tier.pick(12_000, 400_000)
+        self.tier.pick(36_000, 800_000)
     }
     fn run_case(&mut self, k: u64, rng: &mut Rng, col: &mut Collector) {
         self.case(k, rng, col);
